@@ -233,7 +233,11 @@ def build_obj(o, env):
 # ------------------------------------------------------------------ history generation
 def generate(rng, run, tier):
     nslots = rng.randint(1, 4)
-    avoid_repr = rng.random() < 0.85       # avoid switch for known finding C14-repr-collision (unique class names)
+    avoid_repr = rng.random() < 0.85       # (was the avoid switch for the repaired repr collision: unique class names)
+    # avoid switch for known finding C14-fwdref-stale-after-undecorated-redefinition: most histories redefine
+    # forward-referenced names only as @beartype-decorated classes replacing @beartype-decorated classes
+    avoid_plain = rng.random() < 0.85
+    defined_names = {}
     hist = []
     # always start by creating the classes
     names_used = []
@@ -241,6 +245,7 @@ def generate(rng, run, tier):
         name = ('U%d' % s) if avoid_repr else rng.choice(CLS_NAMES)
         hist.append({'op': 'newcls', 's': s, 'name': name, 'base': rng.choice([None, None, 'int', 'prev']) if s else None})
     nh = 0
+    nf = 0
     n = rng.randint(3, 22)
     nq = 0
     tmpl = rng.random()
@@ -264,7 +269,28 @@ def generate(rng, run, tier):
             if rng.random() < 0.5:
                 hist.append({'op': 'gc'})
         n = rng.randint(0, 4)
-    elif tmpl < 0.6 and not avoid_repr:
+    elif tmpl < 0.40:
+        # scenario: a function annotated by the *name* of a decorated class that is redefined again and again,
+        # with calls in between (each redefinition must be noticed, not only the first)
+        name = rng.choice(['Later', 'Later2'])
+        text = rng.choice(['{N}', 'list[{N}]', 'Optional[{N}]']).format(N=name)
+        if rng.random() < 0.5:
+            hist.append({'op': 'mkfunc', 'f': nf, 'text': text})
+            made = True
+        else:
+            made = False
+        for k in range(rng.randint(2, 5)):
+            hist.append({'op': 'defdec', 'n': name, 'decorated': True if avoid_plain else rng.random() < 0.8})
+            defined_names[name] = hist[-1]['decorated']
+            if not made:
+                hist.append({'op': 'mkfunc', 'f': nf, 'text': text})
+                made = True
+            if rng.random() < 0.7:
+                hist.append({'op': 'query', 'q': 'callfunc', 'f': nf, 'xk': rng.choice(['inst', 'inst', 'wrapped', 'other']), 'draw': 0, 'h': -1})
+        hist.append({'op': 'query', 'q': 'callfunc', 'f': nf, 'xk': 'inst', 'draw': 0, 'h': -1})
+        nf += 1
+        n = rng.randint(0, 4)
+    elif tmpl < 0.7 and not avoid_repr:
         # scenario: two distinct classes with one qualified name, same hint shape over each
         s0 = rng.randrange(nslots)
         shape = rng.choice(['list', 'dict', 'tuple', 'seqabc', 'vtuple', 'set', 'pipe'])
@@ -318,7 +344,29 @@ def generate(rng, run, tier):
         elif r < 0.50:
             hist.append({'op': 'redecorate', 'name': rng.choice(['R', 'R2'])})
         elif r < 0.56:
-            hist.append({'op': 'define', 'n': rng.choice(['Later', 'Later2'])})
+            nm = rng.choice(['Later', 'Later2'])
+            if avoid_plain and nm in defined_names:
+                hist.append({'op': 'defdec', 'n': nm, 'decorated': True} if defined_names[nm] else {'op': 'gc'})
+            else:
+                hist.append({'op': 'define', 'n': nm})
+                defined_names.setdefault(nm, False)
+        elif r < 0.60:
+            # (re)definition of a @beartype-decorated class in the user module: the public trigger of cache clearing
+            nm = rng.choice(['Later', 'Later2'])
+            dec = True if avoid_plain else rng.random() < 0.8
+            if avoid_plain and defined_names.get(nm) is False:
+                hist.append({'op': 'gc'})
+            else:
+                hist.append({'op': 'defdec', 'n': nm, 'decorated': dec})
+                defined_names[nm] = dec
+        elif r < 0.63 and nf < 3:
+            hist.append({'op': 'mkfunc', 'f': nf, 'text': rng.choice(['{N}', 'list[{N}]', 'Optional[{N}]', 'dict[str, {N}]']).format(
+                N=rng.choice(['Later', 'Later2']))})
+            nf += 1
+        elif r < 0.70 and nf and nq < 8:
+            nq += 1
+            hist.append({'op': 'query', 'q': 'callfunc', 'f': rng.randrange(nf), 'xk': rng.choice(['inst', 'inst', 'other', 'int', 'wrapped']),
+                         'draw': 0, 'h': -1})
         elif nh and nq < 6:
             nq += 1
             q = rng.choice(['is_bearable', 'is_bearable', 'die', 'decor_call', 'is_subhint', 'th_eq', 'th_le', 'th_is'])
@@ -393,6 +441,26 @@ def _apply(op, env, probes=None):
                 pass
     elif k == 'define':
         setattr(env['mod'], op['n'], type(op['n'], (), {'__module__': MODNAME}))
+    elif k == 'defdec':
+        from beartype import beartype
+        c = type(op['n'], (), {'__module__': MODNAME, 'm': _mk_method()})
+        if op.get('decorated', True):
+            try:
+                c = beartype(c)
+            except Exception:   # noqa
+                pass
+        setattr(env['mod'], op['n'], c)
+    elif k == 'mkfunc':
+        from beartype import beartype
+        ns = {}
+        src = 'def f%d(a: %r):\n    return a\n' % (op['f'], op['text'])
+        exec(compile(src, '<c14-func>', 'exec'), env['mod'].__dict__, ns)
+        f = ns['f%d' % op['f']]
+        f.__module__ = MODNAME
+        try:
+            env.setdefault('funcs', {})[op['f']] = (beartype(f), op['text'])
+        except Exception:       # noqa
+            pass
 
 
 def _mk_method():
@@ -407,6 +475,31 @@ def _query(op, env):
     from beartype import BeartypeConf, beartype, door
     from sim import boot
     q = op['q']
+    if q == 'callfunc':
+        fe = env.get('funcs', {}).get(op['f'])
+        if fe is None:
+            return ['skipped']
+        f, text = fe
+        name = 'Later2' if 'Later2' in text else 'Later'
+        cls = env['mod'].__dict__.get(name)
+        xk = op['xk']
+        if xk in ('inst', 'wrapped') and cls is None:
+            return ['skipped']
+        other = type('Other', (), {})
+        inst = cls() if cls is not None else None
+        x = {'inst': inst, 'other': other(), 'int': 5}.get(xk)
+        if xk == 'wrapped':
+            x = [inst] if text.startswith('list') else ({'k': inst} if text.startswith('dict') else inst)
+        boot.SAMPLER.sticky = op['draw']
+        try:
+            with warnings.catch_warnings():
+                warnings.simplefilter('ignore')
+                r = f(x)
+            return ['ok', r is x]
+        except Exception as e:      # noqa
+            return ops.exc_outcome(e)[:3]
+        finally:
+            boot.SAMPLER.sticky = None
     he = env['hints'].get(op['h'])
     if he is None:
         return ['skipped']
@@ -479,6 +572,30 @@ def _cls_def(hist, s, before, idx):
 def _deps(hist, qi):
     """Indices of the operations needed to construct the arguments of query ``qi`` (and nothing else)."""
     q = hist[qi]
+    if q['q'] == 'callfunc':
+        idx = set()
+        names = set()
+        for j in range(qi - 1, -1, -1):
+            o = hist[j]
+            if o['op'] == 'mkfunc' and o['f'] == q['f']:
+                idx.add(j)
+                names.add('Later2' if 'Later2' in o['text'] else 'Later')
+                break
+        mk = min(idx) if idx else qi
+        for name in names:
+            # the definition in force when the function was decorated (a name that exists then is bound then, exactly
+            # like an evaluated annotation) and the definition in force at query time (the object is an instance of it)
+            for j in range(mk - 1, -1, -1):
+                o = hist[j]
+                if o['op'] in ('define', 'defdec') and o['n'] == name:
+                    idx.add(j)
+                    break
+            for j in range(qi - 1, -1, -1):
+                o = hist[j]
+                if o['op'] in ('define', 'defdec') and o['n'] == name:
+                    idx.add(j)
+                    break
+        return sorted(idx)
     need_h = {q['h']}
     if 'h2' in q:
         need_h.add(q['h2'])
@@ -494,10 +611,13 @@ def _deps(hist, qi):
     if 'x' in q:
         for s in obj_slots(q['x']):
             _cls_def(hist, s, qi, idx)
-    # forward references: names defined before qi stay defined (they are part of the query's meaning)
+    # forward references: names defined before qi stay defined (they are part of the query's meaning);
+    # of several definitions of one name only the last one is in force
+    last = {}
     for j in range(qi):
-        if hist[j]['op'] == 'define':
-            idx.add(j)
+        if hist[j]['op'] in ('define', 'defdec'):
+            last[hist[j]['n']] = j
+    idx.update(last.values())
     return sorted(idx)
 
 
@@ -537,8 +657,12 @@ def execute(case):
             elif op['op'] in ('clear', 'redecorate'):
                 probes['cache_clears'] += 1
                 faults += 1
-            elif op['op'] == 'define':
+            elif op['op'] in ('define', 'defdec'):
                 probes['fwdref_define_later'] += 1
+                if op['op'] == 'defdec' and op['n'] in names:
+                    probes['cache_clears'] += 1
+                    faults += 1
+                names[op['n']] = i
             elif op['op'] == 'mkhint' and _lookalike(op['dsl']):
                 probes['lookalike_hints'] += 1
             _apply(op, env)
@@ -581,6 +705,21 @@ def _lookalike(dsl):
     return "'lit'" in s or "'union_rev'" in s or "'List'" in s
 
 
+def _undetectable_redefinition(hist, qi):
+    """Does the history redefine a forward-referenced name in a way beartype cannot notice (the old or the new class
+    is not @beartype-decorated)?"""
+    q = hist[qi]
+    if q.get('q') != 'callfunc':
+        return False
+    name = None
+    for o in hist[:qi]:
+        if o['op'] == 'mkfunc' and o['f'] == q['f']:
+            name = 'Later2' if 'Later2' in o['text'] else 'Later'
+    defs = [bool(o.get('decorated')) if o['op'] == 'defdec' else False
+            for o in hist[:qi] if o['op'] in ('define', 'defdec') and o['n'] == name]
+    return any(not (a and b) for a, b in zip(defs, defs[1:]))
+
+
 def _why(hist, qi):
     """Classify: is this the repr collision of same-named classes?"""
     names = {}
@@ -591,6 +730,8 @@ def _why(hist, qi):
                 dup = True
             names[o['name']] = 1
     tags = [hist[qi]['q']]
+    if _undetectable_redefinition(hist, qi):
+        tags.append('undecorated_redefinition')
     if dup:
         tags.append('same_named_classes')
     if any(o['op'] in ('clear', 'redecorate') for o in hist[:qi]):
@@ -616,7 +757,11 @@ def _sig_repr_collision(case, v):
     return v.get('kind') == 'history_dependence' and 'same_named_classes' in v.get('key', '')
 
 
-SIGNATURES = {'repr_collision': _sig_repr_collision}
+def _sig_plain_redefinition(case, v):
+    return v.get('kind') == 'history_dependence' and 'undecorated_redefinition' in v.get('key', '')
+
+
+SIGNATURES = {'repr_collision': _sig_repr_collision, 'fwdref_stale_after_undecorated_redefinition': _sig_plain_redefinition}
 
 
 def describe(case):
